@@ -220,7 +220,8 @@ impl PartialEq for Tracked {
 
 // ---------- tokens ----------
 
-/// The token types of the input kinds: `char` (most kinds), `u8` (`bytes`, `io`) and `TT` (`tree`, see input.rs).
+/// The token types of the input kinds: `char` (most kinds), `u8` (`bytes`, `io`), `TT` (`tree`, see input.rs) and
+/// `&'static Grapheme` (`graphemes`, `gslice`: the number is the cluster id, see input.rs).
 /// Everywhere outside the chumsky parsers themselves a token is its number.
 pub trait HTok: Clone + PartialEq + std::fmt::Debug + 'static {
     fn from_u32(n: u32) -> Option<Self>;
